@@ -213,6 +213,10 @@ def rules(ctx: Ctx) -> None:
             ctx.ob("R14.4", f"fallback:{kind}:normalised", normalised, where, f"`{u(st)[:70]}`: every link of the chain goes through the identifier normaliser")
     for k in ("explicit", "configured", "placeholder"):
         ctx.ob("R14.4", f"fallback:{k}:present", k in kinds, sinit.loc(), f"the fallback chain has its {k} link")
+    # ---- R14.6 a scope that is open is not written into by a later, refused attempt to open another one (= R15.3) ---------------------
+    from .common import import_rules as _imp14b
+
+    _imp14b(ctx, "C15", {"R15.3": "R14.6"})
 
 
 def _reads_key(e: ast.AST) -> bool:
